@@ -146,7 +146,7 @@ def _grammar_scripts(seed, count):
 
 RULE_C01 = ('C01: quick = every string of length <= 3 over the 53-character class alphabet domain.ALPHABET (one or two '
             'representatives of every character class of SQL_REGEX incl. NUL, lone surrogate, CR, non-ASCII; 151 740 '
-            'strings, exhaustive), the hand-picked unusual texts, all ordered pairs of 36 short texts as "interleave" '
+            'strings, exhaustive), every string of length <= 3 over 12 transform-sensitive symbols (full-width letter, ligature, dotless i, Kelvin sign, titlecase digraph, superscript, long s, combining accent: what case mapping or Unicode normalisation would rewrite), the hand-picked unusual texts, all ordered pairs of 36 short texts as "interleave" '
             'cases (two live token generators consumed alternately must each equal a fresh sequential run), exhaustive '
             'soups of <= 2 lexical fragments glued without separator and 5 000 seeded random soups of <= 12 fragments. '
             'thorough adds every string of length 4 over a 33-character sub-alphabet (1.19 M) and 600 000 seeded random '
@@ -253,9 +253,20 @@ _INTERLEAVE = ['', 'a', ' ', 'select 1', "'a;b'", "'unclosed", '/* c */ x', '-- 
                ';', ';;', '((', '--', '/*', "at time zone 'utc'", 'create or replace', 'À']
 
 
+# characters that Unicode case mapping or normalisation rewrites (full-width, ligature, dotless i, Kelvin sign, titlecase
+# digraph, superscript, long s, combining mark): a lexer that upper-cases / folds / normalises a lexeme before handing it on
+# shows up here
+TRANSFORM_SENSITIVE = ['\uff33', '\ufb01', '\u0131', '\u212a', '\u01c5', '\u00b2', '\u017f', 'e\u0301', 'a', 'S', ' ', "'"]
+
+
 def cases_C01(tier, seed):
     for s in domain.strings_upto(3):
         yield s
+    for s in domain.strings_upto(3, TRANSFORM_SENSITIVE):
+        yield s
+    for w in ('\uff33\uff25\uff2c\uff25\uff23\uff34 1', 'select \ufb01eld from t', 'x\u00b2 + 1', '\u212aelvin', 'stra\u00dfe',
+              '\u0130stanbul', '\u01c5emal'):
+        yield w
     for t in UNUSUAL_TEXTS:
         yield t
     for a in _INTERLEAVE:
